@@ -5,7 +5,7 @@
    silently; `Print Assumptions` lists the axioms it depends on (none are declared by this development). *)
 From Coq Require Import NArith List Bool String.
 From Octo Require Import Base.Bytes Crypto.Prims Lib.Framed Lib.Canon Model.Address Model.NonceGen Model.SsChunk Model.SsTcp Model.Trojan Model.Socks5 Model.Http Generated.Params Generated.Shared
-  Proofs.AddressFacts Proofs.NonceFacts Proofs.SsChunkRoundtrip Proofs.SsChunkCanon Proofs.SsTcpSafety Proofs.SsTcpRoundtrip Proofs.CodecLemmas Proofs.TrojanFacts Proofs.Socks5Facts Proofs.HttpFacts.
+  Proofs.AddressFacts Proofs.NonceFacts Proofs.SsChunkRoundtrip Proofs.SsChunkCanon Proofs.SsTcpSafety Proofs.SsTcpRoundtrip Proofs.CodecLemmas Proofs.TrojanFacts Proofs.Socks5Facts Proofs.HttpFacts Lib.WsFramed Proofs.WsFramedFacts.
 Import ListNotations.
 Set Printing Width 200.
 
@@ -64,6 +64,26 @@ Definition C04_socks5_greeting := @s5_initial_request_any_segmentation.
 Definition C04_socks5_waits := @s5_command_request_waits.
 
 
+
+(* WebSocket transport: the repository's WebSocketFramed adapter, fed message by message, is FramedRead fed segment by
+   segment (message boundaries in the role of segment boundaries): every theorem above transfers verbatim *)
+Definition C04_ws_is_framed := @ws_run_is_framed_run.
+Definition C04_ws_binary_is_framed := @ws_run_binary_is_framed_run.
+(* ... per message, everything that has completely arrived is delivered (no stall) *)
+Definition C04_ws_no_stall := @ws_step_items_are_feed_items.
+(* ... and nothing is delivered after a decode error *)
+Definition C04_ws_failed_silent := @ws_failed_silent.
+Definition C04_ws_trojan := @trojan_ws_is_framed.
+Definition C04_ws_vmess := @vmess_ws_is_framed.
+Definition C04_ws_ss := @ss_ws_is_framed.
+
+Check @C04_ws_is_framed.
+Check @C04_ws_binary_is_framed.
+Check @C04_ws_no_stall.
+Check @C04_ws_failed_silent.
+Check @C04_ws_trojan.
+Check @C04_ws_vmess.
+Check @C04_ws_ss.
 Check @C04_unit_machine_run_app.
 Check @C04_unit_machine_segments.
 Check @C04_unit_machine_no_stall.
@@ -100,3 +120,10 @@ Print Assumptions C04_trojan_udp_stream.
 Print Assumptions C04_socks5_request.
 Print Assumptions C04_socks5_greeting.
 Print Assumptions C04_socks5_waits.
+Print Assumptions C04_ws_is_framed.
+Print Assumptions C04_ws_binary_is_framed.
+Print Assumptions C04_ws_no_stall.
+Print Assumptions C04_ws_failed_silent.
+Print Assumptions C04_ws_trojan.
+Print Assumptions C04_ws_vmess.
+Print Assumptions C04_ws_ss.
